@@ -147,6 +147,7 @@ HOSTILE = [
     "m>>1", "m<<1", "m[0]", "m()", "m(s)", "m.real", "m.s", "1.m", "1..2*m", "1e", "1e+", "0x10*m", "0b11*m", "0o7*m", "1_000*m",
     "1j*m", "(1+2j)*m", "...", "*", "**", "/", "()", "(,)", "(m,)", "(m,s)", " ", "\n", "#comment", "m #c", "m\\\n*s", "m*\\", "°", "%%",
     "%", "°C", "°°C", "Δ°C", "d°C", "%/%", "m %", "100%", "m**%", "dimensionless", "(dimensionless)", "1", "0", "1.0", "-1", "1/m",
+    "Symbol('')", "Symbol('')*m", "Symbol(' ')", "Symbol('m s')", "Symbol('1')", "Symbol('')**2", "sqrt(Symbol(''))",
     "sqrt(-m)", "(-1)**0.5*m", "(-1)**(1/3)", "(-8)**(1/3)*m", "(-m)**(1/3)", "(-m)**(2/3)", "(-2)**-3*m", "(-m)**0.25", "(-1.5)**1.5*m", "m**(-1)**(1/3)", "sqrt(-4)*m", "(0-m)**(1/3)", "(-m)**2", "m**-0.5", "m**(1/3)", "m**(-1/3)", "m**1/3", "m**0", "m**0.0", "(m)", "((m))",
     "m*(s)", "m*(1+2)", "m+s", "m-m", "m*0", "0*m", "m/m", "kfoo", "foo", "kilofoo", "kkm", "dakm", "ddam", "code_length",
     "a" * 5000, "m*" * 3000 + "m", "Symbol('m', positive=True)", "Symbol('m', positive=True, real=False)",
